@@ -35,6 +35,7 @@ def cases(draw, mode, nums=("frac",), tmax=2):
                              regimes="all" if mode == "elevate" else None))
         t = draw(st.integers(1, tmax))
     c = draw(gen.weight_magnitude(c))
+    c = draw(gen.flat_coordinate(c))
     return {"curve": c, "t": t, "mode": mode, "via": draw(st.sampled_from(["method", "setter"])),
             "twin_first": draw(st.integers(0, 2)) == 0,
             "tolerance": draw(st.sampled_from(["default", "none", "zero"])),
